@@ -1,5 +1,5 @@
 SPECIFICATION Spec
-CONSTANTS NRows = 4  MaxV = 4  Upw = 2  MinPts = 1  NDim = 2  MaskSpace = "sorted"
+CONSTANTS NRows = 4  MaxV = 3  Upw = 2  MinPts = 1  NDim = 2  MaskSpace = "sorted"
 CHECK_DEADLOCK FALSE
 INVARIANT IntervalOwnData
 INVARIANT KeptExactly
